@@ -69,7 +69,7 @@ class Rule(JupyterMixin):
             return
 
         if isinstance(self.title, Text):
-            title_text = self.title
+            title_text = self.title.copy()
         else:
             title_text = console.render_str(self.title, style="rule.text")
 
